@@ -22,11 +22,12 @@ Local Open Scope Z_scope.
 
 Record msg := { m_id : Z; m_uid : Z; m_flags : str }.
 
-(** SQL: instr(' ' || flags || ' ', ' \Deleted ') > 0  — whole word between
-    single blanks, exact about case (commit 378938d; before: LIKE '%\Deleted%') *)
+(** SQL: instr(' ' || lower(flags) || ' ', ' \deleted ') > 0  — whole word
+    between single blanks, ASCII case folded (commit d007c6d; 378938d had the
+    case-sensitive form, before that LIKE '%\Deleted%') *)
 Definition sp : ascii := " "%char.
 Definition sql_deleted (flags : str) : bool :=
-  contains ([sp] ++ flags ++ [sp]) (S_ " \Deleted ").
+  contains ([sp] ++ to_lower flags ++ [sp]) (S_ " \deleted ").
 
 (** sequenceMap[id] = seqNum over all rows (ids are the INTEGER PRIMARY KEY) *)
 Fixpoint number_from (k : Z) (l : list msg) : list (Z * Z) :=
